@@ -33,12 +33,55 @@ ASSUMPTIONS = ["acceptance bands are 6.5 standard errors wide; a wrong factor (2
                "normality of the increments is not part of the statement and is not tested"]
 TIERS = {"quick": dict(runs=160, budget_s=45, shrink=30, min_nontrivial=2),
          "thorough": dict(runs=900, budget_s=900, shrink=60)}
-REQUIRED_PROBES = ["horizontal", "vertical", "vertical_with_advection", "nonuniform_metric_cells_changed", "more_than_65536_particles", "anisotropic", "zero_coefficients", "warm_start_f4"]
+REQUIRED_PROBES = ["horizontal", "vertical", "vertical_with_advection", "nonuniform_metric_cells_changed", "more_than_65536_particles", "roms_grid", "roms_grid_more_than_32768_cells", "anisotropic", "zero_coefficients", "warm_start_f4"]
 CASE_TIMEOUT = 600
+
+
+ROMS_PROFILE = None
+
+
+def generate_roms(seed: int, s) -> dict:
+    """a cloud in still water on a ROMS grid read from files: the spacing comes from Grid.metric of the real grid class
+    (non-uniform, also on grids with more than 2**15 cells), the particles sit in one of the northernmost rows"""
+    from ladsim import gen, truth
+
+    big = s.chance(0.5)
+    prof = gen.profile(nsteps=(2, 4), p_reversed=0.0, p_land=0.0, p_subgrid=0.3, p_bathy_var=0.3, N=(1, 2),
+                       flow_kinds=(("const", 1),), p_time_dependent=0.0, p_levels=0.0, p_temp=0.0, rows=(1, 1),
+                       p_late_rows=0.0, p_rows_outside=0.0, p_continuous=0.0, p_ibm=0.0, schemes=(("EF", 1), ("RK4", 1)),
+                       p_numrec=0.0, p_dense=0.0, p_pvars=0.0, p_extra_float=0.0, p_extra_time=0.0, p_lonlat_out=0.0,
+                       p_metric_vary=1.0, p_metric_aniso=0.5, p_big_grid=1.0 if big else 0.0, p_stop_extra=0.0,
+                       p_multifile=0.0, p_packed=0.0, dts=(60, 600, 3600), grid_i=(12, 20), grid_j=(12, 18),
+                       p_w=0.0, p_vertdiff=0.0, p_diffusion=0.0)
+    sc = gen.gen_scenario(seed, prof)
+    sc["flow"] = {"kind": "const", "u0": 0.0, "v0": 0.0}
+    xlo, xhi, ylo, yhi = truth.valid_region(sc)
+    if xhi - xlo < 6 or yhi - ylo < 6:
+        sc["grid"]["subgrid"] = None
+        xlo, xhi, ylo, yhi = truth.valid_region(sc)
+    # one release point at a cell centre of a northern row, away from the border of the valid region
+    x = float(int(s.uniform(xlo + 2, xhi - 2)))
+    y = float(int(yhi - s.uniform(2.0, 3.0)))
+    assert xlo + 1 < x < xhi - 1 and ylo + 1 < y < yhi - 1, (x, y, xlo, xhi, ylo, yhi)
+    dx, dy = truth.metric(sc)
+    dxl, dyl = float(dx[int(y), int(x)]), float(dy[int(y), int(x)])
+    dt = truth.dt_s(sc)
+    r = 10 ** s.uniform(-2.0, -1.3) * min(dxl, dyl)          # rms step of a few hundredths of a cell
+    D = float(f"{r * r / (2 * dt):.6g}")
+    N = 20000
+    sc["release"] = {"rows": [{"step": 0, "mult": N, "X": x, "Y": y, "Z": 1.0, "tag": 0}],
+                     "extra": [{"name": "tag", "type": "int"}], "header": True}
+    sc["tracker"] = {"advection": sc["tracker"].get("advection", "EF"), "diffusion": D}
+    sc["ibm"] = {}
+    sc["output"] = {"period": sc["time"]["nsteps"], "numrec": 0, "ivars": {"pid": "i4", "X": "f8"}}
+    sc["plan"] = {"kind": "roms", "N": N, "D": D, "dxl": dxl, "dyl": dyl, "rng": s.randint(1, 2**31), "big": big}
+    return sc
 
 
 def generate(seed: int, tier: str, idx: int) -> dict:
     s = stream(seed, "c11")
+    if stream(seed, "c11.kind").chance(0.15):
+        return generate_roms(seed, s)
     dt = s.pick([10, 60, 600, 3600, 86400])
     dx = s.pick([10.0, 200.0, 1000.0, 4000.0, 20000.0])
     dy = dx * (s.pick([0.5, 2.0, 3.0]) if s.chance(0.4) else 1.0)
@@ -87,6 +130,8 @@ def generate(seed: int, tier: str, idx: int) -> dict:
 def features(sc) -> set[str]:
     pl = sc["plan"]
     f = {"kind_" + pl["kind"]}
+    if pl["kind"] == "roms":
+        return f | ({"big_grid"} if pl.get("big") else set())
     if pl["D"]:
         f.add("diffusion")
     if pl["Dz"]:
@@ -102,6 +147,8 @@ def features(sc) -> set[str]:
 
 def base_reductions(sc):
     pl = sc["plan"]
+    if pl["kind"] == "roms":
+        return
     if pl["nsteps"] > 2:
         c = copy.deepcopy(sc)
         c["plan"]["nsteps"] = max(2, pl["nsteps"] // 2)
@@ -162,7 +209,68 @@ def corr(a, b) -> float:
     return float((a * b).sum() / den) if den > 0 else 0.0
 
 
+def execute_roms(sc) -> Result:
+    """increments of a cloud on a ROMS grid, in units of the spacing of the (single) start cell"""
+    res = Result()
+    pl = sc["plan"]
+    s2 = {k: v for k, v in sc.items() if k != "plan"}
+    res.history_key = "roms|" + repr(sorted((k, v) for k, v in pl.items() if k != "rng")) + repr(sc["grid"].get("subgrid"))
+    incs: list[tuple] = []
+    hold: dict = {}
+
+    def monitor(label, snap, rec):
+        if label == "tracker.pre":
+            hold["pre"] = (snap["vars"]["X"].copy(), snap["vars"]["Y"].copy())
+        elif label == "tracker.post" and "pre" in hold:
+            X0, Y0 = hold.pop("pre")
+            if len(snap["vars"]["X"]) == len(X0):
+                incs.append((snap["vars"]["X"] - X0, snap["vars"]["Y"] - Y0, X0, Y0, snap["step"]))
+        rec.snaps.clear()
+
+    run = driver.run_scenario(s2, rng_seed=pl["rng"], monitors=[monitor])
+    try:
+        account_run(res, run, s2)
+        v, foreign = crash_violation(ID, run, ANCHORS + ("ladim/ROMS.py",))
+        if v is not None:
+            res.add(v)
+        if foreign:
+            res.aborted_foreign += 1
+        N, dt = pl["N"], int(s2["time"]["dt"])
+        se_mean, se_var = K / math.sqrt(N), K * math.sqrt(2.0 / N)
+        judged = 0
+        for dX, dY, X0, Y0, n in incs:
+            if len(dX) != N:
+                res.premise_left += 1
+                continue
+            # everybody still in the cell the cloud was released in (the steps are a few hundredths of a cell)
+            if (np.round(X0) != round(sc["release"]["rows"][0]["X"])).any() or (np.round(Y0) != round(sc["release"]["rows"][0]["Y"])).any():
+                res.premise_left += 1
+                continue
+            judged += 1
+            res.feed(dX[:64], dY[:64])
+            for name, d, dl in (("X", dX, pl["dxl"]), ("Y", dY, pl["dyl"])):
+                sg = math.sqrt(2 * pl["D"] * dt) / dl
+                m, var = float(d.mean()), float(d.var())
+                if abs(m) > se_mean * sg:
+                    res.add(Violation("C11.mean", n, f"ROMS grid: mean of d{name} / sigma", m / sg, f"|.| <= {se_mean:.4g}"))
+                if abs(var / (sg * sg) - 1.0) > se_var:
+                    res.add(Violation("C11.variance", n, f"ROMS grid: var(d{name}) / (2 D dt / d{name.lower()}^2 of the cell)",
+                                      var / (sg * sg), f"1 +- {se_var:.4g}"))
+            if len(res.violations) > 4:
+                break
+        res.nontrivial = judged >= 2
+        if judged:
+            res.probes["roms_grid"] += 1
+            if pl.get("big"):
+                res.probes["roms_grid_more_than_32768_cells"] += 1
+    finally:
+        world.rm_dir(run.dir)
+    return res
+
+
 def execute(sc) -> Result:
+    if sc["plan"]["kind"] == "roms":
+        return execute_roms(sc)
     res = Result()
     pl = sc["plan"]
     res.history_key = repr(sorted((k, v) for k, v in pl.items() if k != "rng")) + repr(sorted(sc["analytic"].items(), key=str))
